@@ -352,11 +352,23 @@ func C17(r *h.Run) {
 		}
 		files = append(files, gFile{Package: "acme.v1", GoPackage: "example.com/gen/casepairs;casepairs", Services: []gService{{Name: "Users", Methods: ms}}})
 	}
+	// long names: the fully-qualified method name around and beyond the width the generator wraps
+	// its comments to (97), a service name beyond it, a long single-word comment
+	for i, total := range []int{90, 95, 96, 97, 98, 121, 200} {
+		pkg := "acme.warehouse.inventory.v1"
+		svcName := "StockService"
+		pad := total - len(pkg) - 1 - len(svcName) - 1
+		meth := "Get" + strings.Repeat("Item", pad/4+1)
+		meth = meth[:pad]
+		files = append(files, gFile{Package: pkg, GoPackage: "example.com/gen/longnames;longnames", Services: []gService{{Name: svcName, Methods: []gMethod{
+			{Name: meth, CS: i%2 == 1, SS: i%3 == 0, Comment: " " + strings.Repeat("x", 90+i*3) + "\n"}}}}})
+	}
+	files = append(files, gFile{Package: "acme.v1", GoPackage: "example.com/gen/longnames;longnames", Services: []gService{{Name: "Very" + strings.Repeat("Long", 24) + "Service", Methods: []gMethod{{Name: "Get"}}}}})
 	// services without methods (valid; next to others and alone)
 	files = append(files, gFile{Package: "acme.v1", GoPackage: "example.com/gen/casepairs;casepairs", Services: []gService{{Name: "AdminService"}, {Name: "Users", Methods: []gMethod{{Name: "Get"}}}}})
 	files = append(files, gFile{Package: "", GoPackage: "example.com/gen/casepairs;casepairs", Services: []gService{{Name: "Empty"}}})
 	collides := func(gp string) bool {
-		if strings.HasSuffix(gp, ";casepairs") {
+		if strings.HasSuffix(gp, ";casepairs") || strings.HasSuffix(gp, ";longnames") {
 			return true // (always compiled)
 		}
 		for _, suf := range []string{"/http", "/context", "/errors", "/strings", ";connect_go", ";http"} {
